@@ -2576,6 +2576,45 @@ Section Sem.
     rewrite <- !sumn_scal, <- sumn_add. apply sumn_ext. intros k _. rewrite (D_mul S). ring.
   Qed.
 
+  Lemma Forall2_fprod (Q : gexpr -> gexpr -> Prop) (F1 F2 : gexpr -> F S) l rs :
+    Forall2 Q l rs -> (forall x y, In x l -> Q x y -> F2 y = F1 x) ->
+    fprod (map F2 rs) = fprod (map F1 l).
+  Proof.
+    induction 1 as [|x y l rs Hxy Hr IH]; intros HQ; simpl; [reflexivity|].
+    rewrite (HQ x y) by (simpl; auto). rewrite IH; auto. intros; apply HQ; simpl; auto.
+  Qed.
+
+  (* Jump and Average need no guard at all *)
+  Lemma iface_guard_jump_avg o e : o = OJump \/ o = OAvg -> iface_guard d o e = true.
+  Proof.
+    intros Ho.
+    induction e as [p q|n|c|n|n|n c| |l IHl|l IHl|b x IHb IHx|f a IHa|o' a IHa|o' a b IHa IHb] using gexpr_ind';
+      try reflexivity.
+    - cbn [iface_guard]. apply forallb_forall. rewrite Forall_forall in IHl. auto.
+    - cbn [iface_guard]. rewrite Forall_forall in IHl.
+      destruct Ho as [->| ->]; apply forallb_forall; intros x Hx; rewrite (IHl x Hx); apply orb_true_r.
+    - destruct o'; try reflexivity. destruct Ho as [->| ->]; reflexivity.
+  Qed.
+
+  (* Minus and Plus: the guard only concerns NormalDerivative applications inside the argument *)
+  Lemma iface_guard_side_dn_free o e : o = OMinus \/ o = OPlus -> dn_free e = true -> iface_guard d o e = true.
+  Proof.
+    intros Ho.
+    induction e as [p q|n|c|n|n|n c| |l IHl|l IHl|b x IHb IHx|f a IHa|o' a IHa|o' a b IHa IHb] using gexpr_ind';
+      intros Hf; try reflexivity.
+    - cbn [iface_guard]. cbn [dn_free] in Hf. rewrite forallb_forall in Hf. apply forallb_forall.
+      rewrite Forall_forall in IHl. auto.
+    - cbn [iface_guard]. cbn [dn_free] in Hf. rewrite forallb_forall in Hf. rewrite Forall_forall in IHl.
+      destruct Ho as [->| ->]; apply forallb_forall; intros x Hx; rewrite (IHl x Hx (Hf x Hx)); apply orb_true_r.
+    - destruct o'; try reflexivity. discriminate.
+  Qed.
+
+  (* the normal derivative of 1 *)
+  Lemma dn_one sd : sumn d (fun k => Dk k 1 * nrm S sd k) = 0.
+  Proof.
+    rewrite <- (sumn_zero d). apply sumn_ext. intros k _. rewrite D_one. ring.
+  Qed.
+
   Theorem mk_iface_sound fuel : forall o e r,
     iface_op o = true -> mk_iface d sgt fuel o e = Ok r -> gdf e -> iface_guard d o e = true ->
     nm 2 <> 0 -> geq r (G1 o e).
@@ -2589,12 +2628,12 @@ Section Sem.
     - (* the literal 0 under minus / plus *)
       inversion H; subst. apply andb_true_iff in Ez. destruct Ez as [Es Ez].
       intros sd i j. rewrite gzero_sem. destruct p; try discriminate.
-      destruct o; try discriminate; cbn [gsem sem1]; symmetry; apply qnum_zero.
+      destruct o; try discriminate; cbn [gsem sem1 sem2 map DOpP.fprod DOpP.fsum gmul_raw]; symmetry; apply qnum_zero.
     - (* Add *)
       apply bindL_ok in H. destruct H as [Hs H]. inversion H; subst r. clear H.
       destruct (mapM (mk_iface d sgt k o) l) as [s rs] eqn:Em. simpl in Hs. simpl snd.
       intros sd i j. rewrite gadd_sem, G1_add.
-      apply (Forall2_fsum (fun x y => mk_iface d sgt k o x = Ok y)).
+      apply Forall2_fsum with (Q := fun x y => mk_iface d sgt k o x = Ok y).
       + eapply mapM_ok; eauto.
       + intros x y Hx Hxy. apply (IH o x y Ho Hxy); auto.
         * eapply gdf_in_add; eauto.
@@ -2602,78 +2641,108 @@ Section Sem.
     - (* Mul *)
       set (coeffs := filter is_coeff l) in *.
       set (vectors := filter (fun a => negb (is_coeff a)) l) in *.
-      intros sd i j. rewrite (G1_mul_coeffs o l) by exact Hd. fold coeffs vectors.
+      intros sd i j. rewrite G1_mul_coeffs by exact Hd. fold coeffs vectors.
       assert (FB : forall r', Ok (gmul [gmul coeffs; G1 o (gmul_raw vectors)]) = Ok r' ->
                    gsem sd r' i j = fprod (map (fun x => gsem sd x i j) coeffs) * gsem sd (G1 o (gmul_raw vectors)) i j).
       { intros r' E. inversion E; subst. rewrite gmul_sem. cbn [map DOpP.fprod]. rewrite gmul_sem. ring. }
       assert (Iv : forall x, In x vectors -> In x l /\ is_coeff x = false).
       { intros x Hx. apply filter_In in Hx. destruct Hx as [Hx Hn]. split; auto. now destruct (is_coeff x). }
       assert (Dv : Forall gdf vectors) by (apply Forall_filter; now apply gdf_mul).
-      cbn [iface_guard] in Hg. fold vectors in Hg.
-      destruct vectors as [|f [|g rest]] eqn:Ev.
-      + (* coefficients only *)
-        inversion H; subst r. rewrite gmul_sem. cbn [gmul_raw].
-        assert (E1 : gsem sd (G1 o gone) i j = 1).
-        { assert (H2' : 1 + 1 <> 0) by exact H2.
-          destruct o; try discriminate; simpl in Hg; try discriminate; cbn [gsem sem1]; try reflexivity.
-          change (gsem SMinus gone i j) with 1. change (gsem SPlus gone i j) with 1. change (nm 2) with (1 + 1).
-          field. exact H2'. }
-        rewrite E1. ring.
-      + (* one non-coefficient factor *)
-        assert (Gf : iface_guard d o f = true).
-        { destruct (Iv f (or_introl eq_refl)) as [I1 I2].
-          destruct o; try discriminate; simpl in Hg; try (apply andb_true_iff in Hg; destruct Hg as [_ Hg]);
-            rewrite forallb_forall in Hg; specialize (Hg f I1); rewrite I2 in Hg; simpl in Hg;
-            try exact Hg; apply andb_true_iff in Hg; tauto. }
-        inversion Dv as [|? ? Df _]; subst.
-        destruct (mk_iface d sgt k o f) as [b'| |] eqn:Eb; try discriminate; [|now apply FB].
-        inversion H; subst r. rewrite gmul_sem. cbn [map DOpP.fprod gmul_raw]. rewrite gmul_sem.
-        rewrite (IH o f b' Ho Eb Df Gf H2 sd i j). ring.
-      + (* a product of several fields: only Dn is a derivation *)
-        destruct o; try discriminate.
-        apply andb_true_iff in Hg. destruct Hg as [_ Hg]. rewrite forallb_forall in Hg.
-        assert (Gv : forall x, In x (f :: g :: rest) -> scalar_like x /\ iface_guard d ODn x = true).
+      cbn [iface_guard] in Hg.
+      destruct o; try discriminate; cbv iota in H.
+      + (* NormalDerivative: a derivation *)
+        rewrite forallb_forall in Hg.
+        assert (Gv : forall x, In x vectors -> scalar_like x /\ iface_guard d ODn x = true).
         { intros x Hx. destruct (Iv x Hx) as [I1 I2]. specialize (Hg x I1). rewrite I2 in Hg. simpl in Hg.
           apply andb_true_iff in Hg. destruct Hg as [G1' G2']. split; auto. now apply is_scalar_sem. }
-        inversion Dv as [|? ? Df Dr]; subst. inversion Dr as [|? ? Dg Drest]; subst.
-        destruct (Gv f (or_introl eq_refl)) as [Sf Gf].
-        destruct (Gv g (or_intror (or_introl eq_refl))) as [Sg Gg].
-        destruct rest as [|h rest'].
-        * (* two factors *)
-          destruct (mk_iface d sgt k ODn g) as [cg| |] eqn:Eg; destruct (mk_iface d sgt k ODn f) as [cf| |] eqn:Ef;
-            try discriminate; try (now apply FB).
-          inversion H; subst r. rewrite gmul_sem. cbn [map DOpP.fprod]. rewrite gmul_sem, gadd_sem.
-          cbn [map DOpP.fsum]. rewrite !gmul_sem. cbn [map DOpP.fprod].
-          rewrite (IH ODn g cg eq_refl Eg Dg Gg H2 sd i j), (IH ODn f cf eq_refl Ef Df Gf H2 sd i j).
-          cbn [gmul_raw gsem sem1 map DOpP.fprod].
-          rewrite (Sf sd i j), (Sg sd i j).
-          replace (gsem sd f O O * (gsem sd g O O * 1)) with (gsem sd f O O * gsem sd g O O) by ring.
-          rewrite dn_leibniz. ring.
-        * (* first factor against the rest *)
-          set (rgt := gmul_raw (g :: h :: rest')) in *.
-          assert (Sr : Forall scalar_like (g :: h :: rest')).
-          { apply Forall_forall. intros x Hx. apply Gv. now right. }
-          assert (Gr : iface_guard d ODn rgt = true).
-          { unfold rgt. cbn [gmul_raw iface_guard].
-            assert (Ef : filter (fun a => negb (is_coeff a)) (g :: h :: rest') = g :: h :: rest').
-            { assert (A : forall (l0 : list gexpr), (forall x, In x l0 -> is_coeff x = false) -> filter (fun a => negb (is_coeff a)) l0 = l0).
-              { induction l0 as [|x0 r0 IH0]; intros Hl; simpl; auto. rewrite (Hl x0) by now left. simpl. f_equal.
-                apply IH0. intros; apply Hl; now right. }
-              apply A. intros x Hx. apply (Iv x). now right. }
-            rewrite Ef. simpl negb. apply forallb_forall. intros x Hx.
-            destruct (Gv x (or_intror Hx)) as [_ Gx]. destruct (Iv x (or_intror Hx)) as [I1 I2].
-            rewrite I2. simpl. specialize (Hg x I1). rewrite I2 in Hg. exact Hg. }
-          assert (Dr' : gdf rgt) by (unfold rgt; apply gdf_gmul_raw; exact Dr).
-          destruct (mk_iface d sgt k ODn f) as [fl| |] eqn:Ef; destruct (mk_iface d sgt k ODn rgt) as [fr| |] eqn:Er;
-            try discriminate; try (now apply FB).
-          inversion H; subst r. rewrite gmul_sem. cbn [map DOpP.fprod]. rewrite gmul_sem, gadd_sem.
-          cbn [map DOpP.fsum]. rewrite !gmul_sem. cbn [map DOpP.fprod].
-          rewrite (IH ODn rgt fr eq_refl Er Dr' Gr H2 sd i j), (IH ODn f fl eq_refl Ef Df Gf H2 sd i j).
-          unfold rgt. cbn [gmul_raw gsem sem1].
-          rewrite (Sf sd i j). rewrite (scalars_const (g :: h :: rest') sd i j Sr).
-          set (R := fprod (map (fun x => gsem sd x O O) (g :: h :: rest'))).
-          change (fprod (map (fun x => gsem sd x O O) (f :: g :: h :: rest'))) with (gsem sd f O O * R).
-          rewrite dn_leibniz. ring.
+        destruct vectors as [|f [|g rest]] eqn:Ev.
+        * (* coefficients only: 0 *)
+          inversion H; subst r. rewrite gmul_sem. cbn [map DOpP.fprod gmul_raw]. rewrite gzero_sem.
+          cbn [gsem sem1 sem2 map DOpP.fprod DOpP.fsum gmul_raw]. change (gsem sd gone O O) with 1. rewrite dn_one. ring.
+        * (* one non-coefficient factor *)
+          destruct (Gv f (or_introl eq_refl)) as [_ Gf].
+          inversion Dv as [|? ? Df _]; subst.
+          destruct (mk_iface d sgt k ODn f) as [b'| |] eqn:Eb; try discriminate; [|now apply FB].
+          inversion H; subst r. rewrite gmul_sem. cbn [map DOpP.fprod gmul_raw]. rewrite gmul_sem.
+          rewrite (IH ODn f b' eq_refl Eb Df Gf H2 sd i j). ring.
+        * (* several factors: Leibniz *)
+          inversion Dv as [|? ? Df Dr]; subst. inversion Dr as [|? ? Dg Drest]; subst.
+          destruct (Gv f (or_introl eq_refl)) as [Sf Gf].
+          destruct (Gv g (or_intror (or_introl eq_refl))) as [Sg Gg].
+          destruct rest as [|h rest'].
+          -- (* two factors *)
+            destruct (mk_iface d sgt k ODn g) as [cg| |] eqn:Eg; destruct (mk_iface d sgt k ODn f) as [cf| |] eqn:Ef;
+              try discriminate; try (now apply FB).
+            inversion H; subst r. rewrite gmul_sem. cbn [map DOpP.fprod]. rewrite gmul_sem, gadd_sem.
+            cbn [map DOpP.fsum]. rewrite !gmul_sem. cbn [map DOpP.fprod].
+            rewrite (IH ODn g cg eq_refl Eg Dg Gg H2 sd i j), (IH ODn f cf eq_refl Ef Df Gf H2 sd i j).
+            cbn [gsem sem1 sem2 map DOpP.fprod DOpP.fsum gmul_raw].
+            rewrite (Sf sd i j), (Sg sd i j).
+            replace (gsem sd f O O * (gsem sd g O O * 1)) with (gsem sd f O O * gsem sd g O O) by ring.
+            rewrite dn_leibniz. ring.
+          -- (* first factor against the rest *)
+            set (rgt := gmul_raw (g :: h :: rest')) in *.
+            assert (Sr : Forall scalar_like (g :: h :: rest')).
+            { apply Forall_forall. intros x Hx. apply Gv. now right. }
+            assert (Gr : iface_guard d ODn rgt = true).
+            { unfold rgt. cbn [gmul_raw iface_guard].
+              apply forallb_forall. intros x Hx.
+              destruct (Gv x (or_intror Hx)) as [_ Gx]. destruct (Iv x (or_intror Hx)) as [I1 I2].
+              rewrite I2. simpl. specialize (Hg x I1). rewrite I2 in Hg. exact Hg. }
+            assert (Dr' : gdf rgt) by (unfold rgt; apply gdf_gmul_raw; exact Dr).
+            destruct (mk_iface d sgt k ODn f) as [fl| |] eqn:Ef; destruct (mk_iface d sgt k ODn rgt) as [fr| |] eqn:Er;
+              try discriminate; try (now apply FB).
+            inversion H; subst r. rewrite gmul_sem. cbn [map DOpP.fprod]. rewrite gmul_sem, gadd_sem.
+            cbn [map DOpP.fsum]. rewrite !gmul_sem. cbn [map DOpP.fprod].
+            rewrite (IH ODn rgt fr eq_refl Er Dr' Gr H2 sd i j), (IH ODn f fl eq_refl Ef Df Gf H2 sd i j).
+            unfold rgt. cbn [gsem sem1 gmul_raw].
+            rewrite (Sf sd i j). rewrite (scalars_const (g :: h :: rest') sd i j Sr).
+            set (R := fprod (map (fun x => gsem sd x O O) (g :: h :: rest'))).
+            change (fprod (map (fun x => gsem sd x O O) (f :: g :: h :: rest'))) with (gsem sd f O O * R).
+            rewrite dn_leibniz. ring.
+      + (* Jump: 0 on constants, no rewriting of a product of several factors *)
+        destruct vectors as [|f [|g rest]] eqn:Ev; [| |now apply FB].
+        * inversion H; subst r. rewrite gmul_sem. cbn [map DOpP.fprod gmul_raw]. rewrite gzero_sem.
+          cbn [gsem sem1 sem2 map DOpP.fprod DOpP.fsum gmul_raw]. change (gsem SMinus gone i j) with 1. change (gsem SPlus gone i j) with 1. ring.
+        * inversion Dv as [|? ? Df _]; subst.
+          destruct (mk_iface d sgt k OJump f) as [b'| |] eqn:Eb; try discriminate; [|now apply FB].
+          inversion H; subst r. rewrite gmul_sem. cbn [map DOpP.fprod gmul_raw]. rewrite gmul_sem.
+          rewrite (IH OJump f b' eq_refl Eb Df (iface_guard_jump_avg OJump f (or_introl eq_refl)) H2 sd i j). ring.
+      + (* Average: the constant on constants, no rewriting of a product of several factors *)
+        destruct vectors as [|f [|g rest]] eqn:Ev; [| |now apply FB].
+        * inversion H; subst r. rewrite gmul_sem. cbn [map DOpP.fprod gmul_raw]. rewrite gone_sem.
+          cbn [gsem sem1 sem2 map DOpP.fprod DOpP.fsum gmul_raw]. change (gsem SMinus gone i j) with 1. change (gsem SPlus gone i j) with 1.
+          assert (H2x : 1 + 1 <> 0) by exact H2. change (nm 2) with (1 + 1). rewrite gmul_sem. replace ((1 + 1) / (1 + 1)) with 1 by (field; exact H2x). ring.
+        * inversion Dv as [|? ? Df _]; subst.
+          destruct (mk_iface d sgt k OAvg f) as [b'| |] eqn:Eb; try discriminate; [|now apply FB].
+          inversion H; subst r. rewrite gmul_sem. cbn [map DOpP.fprod gmul_raw]. rewrite gmul_sem.
+          rewrite (IH OAvg f b' eq_refl Eb Df (iface_guard_jump_avg OAvg f (or_intror eq_refl)) H2 sd i j). ring.
+      + (* Minus: multiplicative *)
+        rewrite forallb_forall in Hg.
+        destruct (mapM (mk_iface d sgt k OMinus) vectors) as [s rs] eqn:Em.
+        destruct s as [z| |]; try discriminate; [|now apply FB].
+        inversion H; subst r. rewrite gmul_sem. cbn [map DOpP.fprod]. rewrite !gmul_sem.
+        cbn [gsem sem1 sem2 map DOpP.fprod DOpP.fsum gmul_raw]. rewrite gmul_raw_sem.
+        rewrite (Forall2_fprod (fun x y => mk_iface d sgt k OMinus x = Ok y)
+                   (fun x => gsem SMinus x i j) (fun y => gsem sd y i j) vectors rs).
+        * ring.
+        * eapply mapM_ok; eauto.
+        * intros x y Hx Hxy. destruct (Iv x Hx) as [I1 I2]. specialize (Hg x I1). rewrite I2 in Hg. simpl in Hg.
+          rewrite Forall_forall in Dv.
+          apply (IH OMinus x y eq_refl Hxy (Dv x Hx) Hg H2 sd i j).
+      + (* Plus: multiplicative *)
+        rewrite forallb_forall in Hg.
+        destruct (mapM (mk_iface d sgt k OPlus) vectors) as [s rs] eqn:Em.
+        destruct s as [z| |]; try discriminate; [|now apply FB].
+        inversion H; subst r. rewrite gmul_sem. cbn [map DOpP.fprod]. rewrite !gmul_sem.
+        cbn [gsem sem1 sem2 map DOpP.fprod DOpP.fsum gmul_raw]. rewrite gmul_raw_sem.
+        rewrite (Forall2_fprod (fun x y => mk_iface d sgt k OPlus x = Ok y)
+                   (fun x => gsem SPlus x i j) (fun y => gsem sd y i j) vectors rs).
+        * ring.
+        * eapply mapM_ok; eauto.
+        * intros x y Hx Hxy. destruct (Iv x Hx) as [I1 I2]. specialize (Hg x I1). rewrite I2 in Hg. simpl in Hg.
+          rewrite Forall_forall in Dv.
+          apply (IH OPlus x y eq_refl Hxy (Dv x Hx) Hg H2 sd i j).
     - (* minus / plus of a normal derivative *)
       destruct o'; try (simpl in H; rewrite ?andb_false_r in H; inversion H; subst; apply geq_refl).
       destruct (is_side_op o) eqn:Es; [|inversion H; subst; apply geq_refl].
@@ -2688,7 +2757,15 @@ Section Sem.
       subst gu.
       intros sd i j.
       rewrite (mk_bil_core _ ODot _ _ r false eq_refl H); try discriminate; try exact I; try (intros _; exact I).
-      destruct o; try discriminate; cbn [gsem sem1 sem2]; unfold dotv; apply sumn_ext; intros; reflexivity.
+      destruct o; try discriminate; cbn [gsem sem1 sem2 map DOpP.fprod DOpP.fsum gmul_raw]; unfold dotv; apply sumn_ext; intros; reflexivity.
+  Qed.
+  (* Jump and Average: no guard *)
+  Corollary mk_jump_avg_sound fuel o e r :
+    o = OJump \/ o = OAvg -> mk_iface d sgt fuel o e = Ok r -> gdf e -> nm 2 <> 0 -> geq r (G1 o e).
+  Proof.
+    intros Ho H Hd H2. apply (mk_iface_sound fuel o e r); auto.
+    - destruct Ho as [->| ->]; reflexivity.
+    - now apply iface_guard_jump_avg.
   Qed.
 End Sem.
 
@@ -2828,23 +2905,42 @@ Section Witnesses.
     eexists. vm_compute. reflexivity.
   Qed.
 
-  (* Jump / Average / Minus / Plus apply the Leibniz rule of a derivation to a product *)
-  Lemma mk_iface_refuted_product o :
+  (* ---- repaired in the interface operators: a restriction is multiplicative, Jump / Average keep a product of
+     several factors, Jump and NormalDerivative of a product of coefficients are 0.  The former counter-examples
+     (and a three-factor product with a coefficient) are inside the guard and the kernel proves, per witness, that
+     the model result has the meaning of the literal ---- *)
+  Lemma mk_iface_repaired_product o :
     o = OJump \/ o = OAvg \/ o = OMinus \/ o = OPlus ->
-    let e := GMul [f; g] in
-    iface_guard 2 o e = false /\ exists r, mk_iface 2 str_gt 50 o e = Ok r /\
-    tens_differ (den 2 (Ok r)) (lit 2 (G1 o e)) = true.
+    (let e := GMul [f; g] in
+     iface_guard 2 o e = true /\ exists r, mk_iface 2 str_gt 50 o e = Ok r /\
+     cmp (den 2 (Ok r)) (lit 2 (G1 o e)) = 0%nat) /\
+    (let e := GMul [gint 2; f; g; FF] in
+     iface_guard 2 o e = true /\ exists r, mk_iface 2 str_gt 50 o e = Ok r /\
+     cmp (den 2 (Ok r)) (lit 2 (G1 o e)) = 0%nat).
   Proof.
-    intros [->|[->|[->| ->]]]; (split; [reflexivity|]); eexists; (split; [vm_compute; reflexivity|vm_compute; reflexivity]).
+    intros [->|[->|[->| ->]]]; split; (split; [reflexivity|]); eexists; (split; [vm_compute; reflexivity|vm_compute; reflexivity]).
   Qed.
 
-  (* Jump and NormalDerivative of a product of coefficients return the product instead of 0 *)
-  Lemma mk_iface_refuted_constant o :
+  Lemma mk_iface_repaired_constant o :
     o = OJump \/ o = ODn ->
     let e := GMul [gint 2; al] in
-    iface_guard 2 o e = false /\ mk_iface 2 str_gt 50 o e = Ok e /\
-    tens_differ (lit 2 e) (lit 2 (G1 o e)) = true.
+    iface_guard 2 o e = true /\ mk_iface 2 str_gt 50 o e = Ok gzero /\
+    cmp (lit 2 gzero) (lit 2 (G1 o e)) = 0%nat.
   Proof. intros [->| ->]; (split; [reflexivity|]); split; vm_compute; reflexivity. Qed.
+
+  (* historical (the arms before the repair): Jump / Average / Minus / Plus shared the product arm of
+     NormalDerivative, the Leibniz rule of a derivation, and Jump / NormalDerivative returned a product of
+     coefficients unchanged; both differ from the literal in the free jet *)
+  Definition leibniz_arm_before_fix (o : op1) (x y : gexpr) : gexpr := gadd [gmul [x; G1 o y]; gmul [y; G1 o x]].
+  Lemma iface_product_before_fix o :
+    o = OJump \/ o = OAvg \/ o = OMinus \/ o = OPlus ->
+    tens_differ (lit 2 (leibniz_arm_before_fix o f g)) (lit 2 (G1 o (GMul [f; g]))) = true.
+  Proof. intros [->|[->|[->| ->]]]; vm_compute; reflexivity. Qed.
+  Lemma iface_constant_before_fix o :
+    o = OJump \/ o = ODn ->
+    let e := GMul [gint 2; al] in
+    tens_differ (lit 2 e) (lit 2 (G1 o e)) = true.
+  Proof. intros [->| ->]; vm_compute; reflexivity. Qed.
 
   (* Dot / Cross / Inner / Outer / Convect raise when an argument has no non-commutative factor
      (Laplace(F) and Div(Grad(F)) are commutative vectors): a refusal on a well-typed application *)
